@@ -52,6 +52,11 @@ Fixpoint file_chain (fuel : nat) (off : Z) (seen : list Z) : result (list node *
       else do (rest, seen') <- file_chain f next (off :: seen); Ok (nd :: rest, seen')
   end.
 
+(* a child directory named '' or containing '/' (UTF-16LE code unit 2F 00) is refused: it would alias its parent's path *)
+Fixpoint has_slash (l : list Z) : bool :=
+  match l with a :: b :: r => ((a =? 0x2F) && (b =? 0)) || has_slash r | _ => false end.
+Definition bad_dir_name (nm : list Z) : bool := (len nm =? 0) || has_slash nm.
+
 (* state: (seen directory offsets, seen file offsets) *)
 Fixpoint dir_chain (fuel ffuel : nat) (off : Z) (seen : list Z * list Z) : result (list node * (list Z * list Z)) :=
   match fuel with
@@ -64,6 +69,7 @@ Fixpoint dir_chain (fuel ffuel : nat) (off : Z) (seen : list Z * list Z) : resul
       let next := le_decode (slice meta 4 4) in
       let name := slice dirmeta (off + 0x18) (le_decode (slice meta 0x14 4)) in
       if negb (utf16_ok name) then Err UnicodeErr else
+      if bad_dir_name name then Err (Pyctr 42) else
       let first_child := le_decode (slice meta 8 4) in
       let first_file := le_decode (slice meta 0xC 4) in
       (* iterate_dir on the child: its sub-directories, then its files *)
